@@ -53,6 +53,14 @@ def evaluate(res):
     return corr, orc
 
 
+def evaluate_all(res):
+    """+ the bulk exports of a target/source tree (source data, target data, target results) before and after rebuild"""
+    from props import C13
+    corr, orc = evaluate(res)
+    c2, o2 = C13.tsm_history(res, "C17")
+    return corr + [x for x in c2], orc + [x for x in o2 if "export" in x[0] or "identity" in x[0]]
+
+
 def run(rep, tier, seed, replay, proof_ok, proof_msg):
-    ftree.standard(rep, tier, seed, replay, proof_ok, proof_msg, "C17", 300, 30000, True, evaluate, export=True)
-    rep.assumptions += ["source/target trees: see C09"]
+    ftree.standard(rep, tier, seed, replay, proof_ok, proof_msg, "C17", 300, 30000, True, evaluate_all, export=True)
+    rep.assumptions += ["source/target trees: getAllParticlesDataSource / DataTarget / RhsTarget of a TbfTreeTsm over the same particle set on both sides, before and after moves + rebuild"]
